@@ -227,8 +227,21 @@ static void one_execution( const Case& c, const std::vector< int >& pre, bool ve
       return;
    }
    // ---- result against the reference: C01 / C09 / C05 depending on the space
+   // known shape (finding #16): lazy tracking + rematch / minus + bof: bof refers to the re-matched text
+   bool lazy_rematch_bof = false;
+   if( S.check_positions && In::tracking_mode_v == p::tracking_mode::lazy ) {
+      bool rem = false, bof = false;
+      for( int i = 0; i < c.nrules; ++i ) {
+         rem = rem || tab[ i ].op == REMATCH || tab[ i ].op == REMATCH3 || tab[ i ].op == MINUS;
+         bof = bof || tab[ i ].op == BOF;
+      }
+      lazy_rematch_bof = rem && bof;
+   }
    if( r.kind == Real::FUEL ) {
-      report( S.result_prop, "implementation does not terminate where the reference does", c );
+      if( lazy_rematch_bof )
+         report( "C06", "lazy input: positions inside the second phase of rematch / minus are relative to the re-matched text|consequence: bof matches at the start of the re-matched text (repetition over bof does not terminate)", c );
+      else
+         report( S.result_prop, "implementation does not terminate where the reference does", c );
       return;
    }
    if( o.k == R::RAISE ) {
@@ -244,15 +257,6 @@ static void one_execution( const Case& c, const std::vector< int >& pre, bool ve
       std::string cls = j;
       for( auto& ch : cls )
          if( ch >= '0' && ch <= '9' ) ch = '#';
-      bool lazy_rematch_bof = false;
-      if( S.check_positions && In::tracking_mode_v == p::tracking_mode::lazy ) {
-         bool rem = false, bof = false;
-         for( int i = 0; i < c.nrules; ++i ) {
-            rem = rem || tab[ i ].op == REMATCH || tab[ i ].op == REMATCH3 || tab[ i ].op == MINUS;
-            bof = bof || tab[ i ].op == BOF;
-         }
-         lazy_rematch_bof = rem && bof;
-      }
       if( lazy_rematch_bof )
          report( "C06", "lazy input: positions inside the second phase of rematch / minus are relative to the re-matched text|consequence: bof matches at the start of the re-matched text", c, j );
       else
